@@ -77,6 +77,9 @@ func genCase(t *rapid.T) Case {
 		if f.Kind == string(simfs.KWriteAt) {
 			f.Partial = rapid.SampledFrom([]int{0, 0, 8, 16, 40, 1000}).Draw(t, "partial")
 		}
+		if f.Kind == string(simfs.KCreate) && rapid.Bool().Draw(t, "createLeavesFile") {
+			f.Partial = 1 // the failing Create leaves the (empty) file behind
+		}
 		c.Faults = append(c.Faults, f)
 	}
 	return c
@@ -211,6 +214,7 @@ type env struct {
 	lastMin        uint64
 	lastMax        uint64
 	cls            map[string]bool
+	ledger         *common.Failure
 }
 
 func (e *env) open() error {
@@ -423,6 +427,13 @@ func (e *env) run(in *injector) *common.Failure {
 	}
 	e.w.Close()
 	e.w = nil
+	// C13 ledger: creating a segment must never collide with an existing file,
+	// nor re-use an ID that was retired from the metadata
+	if len(e.fs.CreateDup) > 0 {
+		e.ledger = common.Failf("create-collision", "Create was called on an existing file name: %v (every name created: %v)", e.fs.CreateDup, e.fs.Created)
+	} else if len(e.fs.CreateRetired) > 0 {
+		e.ledger = common.Failf("id-reused-after-retire", "a segment was created with a retired ID: %v", e.fs.CreateRetired)
+	}
 	return nil
 }
 
@@ -446,7 +457,9 @@ func newEnv(c Case) *env {
 	return &env{c: c, fs: simfs.New(), m: refmodel.NewLogModel(), base: refmodel.NewLogModel(), stable: map[string][]byte{}, cls: map[string]bool{}}
 }
 
-func runCase(c Case) (res common.Result) {
+func runCase(c Case) (res common.Result) { return runCaseFor(c, "C10") }
+
+func runCaseFor(c Case, prop string) (res common.Result) {
 	// pass 1: count calls per kind without faults
 	dry := newEnv(c)
 	if f := dry.run(nil); f != nil {
@@ -466,9 +479,19 @@ func runCase(c Case) (res common.Result) {
 		return
 	}
 	e := newEnv(c)
-	res.Fail = e.run(in)
+	f := e.run(in)
 	if e.w != nil {
 		e.w.Close()
+	}
+	if prop == "C13" {
+		// only the segment-identity ledger is this property's verdict; a persistent refusal to
+		// create (the collision itself) may surface as a C10-style failure first, look at the ledger anyway
+		if len(e.fs.CreateDup) > 0 && e.ledger == nil {
+			e.ledger = common.Failf("create-collision", "Create was called on an existing file name: %v", e.fs.CreateDup)
+		}
+		res.Fail = e.ledger
+	} else {
+		res.Fail = f
 	}
 	res.NonTrivial = in.hits > 0 && e.failedCalls > 0 && e.okAfterFailure > 0
 	for k := range e.cls {
@@ -485,4 +508,10 @@ func runCase(c Case) (res common.Result) {
 
 func TestC10Faults(t *testing.T) {
 	common.Run(t, "C10", "C10Faults", genCase, runCase)
+}
+
+// TestC13Faults runs the same fault histories and judges only the segment
+// identity ledger (C13): no Create on an existing name, no retired ID re-used.
+func TestC13Faults(t *testing.T) {
+	common.Run(t, "C13", "C13Faults", genCase, func(c Case) common.Result { return runCaseFor(c, "C13") })
 }
